@@ -13,7 +13,36 @@ def plan(tier, seed):
     sp = progwork.shards(tier, 2500, 150000)
     from hv import realwork
     sp += [{'kind': 'cli', 'year': y, 'n': 4 if tier == 'quick' else 60} for y in (2021, 2022, 2023)]
+    sp += [{'kind': 'alone', 'year': y, 'filers': 1 if tier == 'quick' else 6} for y in (2021, 2022, 2023)]
     return sp + realwork.shards('C04', tier)
+
+
+def run_alone(spec, tier, seed):
+    """Every shipped form (every allowed copy) requested on its own, and in pairs with another schedule, without Form 1040 in
+    the request: whatever ends up in the solution is the demand closure of that request - a form nobody asked for and no
+    evaluated line referred to is not there, and neither is a solution when the request cannot be served."""
+    from hv import hx, scen, realwork, drive
+    res = Result()
+    year = spec['year']
+    names = []
+    for cls in hx.catalogue(year):
+        for inst in hx.instances_for(cls)[:2]:
+            names.append(cls(instance=inst).name() if inst else cls().name())
+    statuses = ['S', 'MFJ', 'HOH', 'MFS', 'QSS', 'MFJ']
+    for j, name in enumerate(names):
+        for f in range(spec['filers']):
+            st_ = statuses[(j + f) % len(statuses)]
+            p = scen.plain_persona(year, st_, 30000.0 + 45000.0 * ((j + f) % 5), key=f'alone:{f}', deps_ctc=(j + f) % 3, nc=name.startswith('nc_'))
+            req = [name] if f % 2 == 0 else [name, names[(j * 7 + f) % len(names)]]
+            out, tv, t = realwork.traced(p, forms=req)
+            res.evaluations += 1
+            res.count('closure_checks')
+            res.count('closure_checks_forms_alone')
+            res.count('alone_' + drive.verdict_class(out).split(':')[0])
+            res.distinct.add(f'alone|{year}|{"+".join(x.split(":")[0] for x in req)}|{drive.verdict_class(out).split(":")[0]}')
+            for s_, m in oracles.c04(out, tv):
+                res.violation(f'C04|real|{year}|{s_}|{realwork.key_line(m)}', f'{year} request {req} ({st_}): {m}', {'engine': 'scen', 'persona': p.describe(), 'request': req, 'shard': spec})
+    return res
 
 
 def run_cli(spec, tier, seed):
@@ -101,6 +130,8 @@ def run_cli(spec, tier, seed):
 def run_shard(spec, tier, seed):
     if spec['kind'] == 'cli':
         return run_cli(spec, tier, seed)
+    if spec['kind'] == 'alone':
+        return run_alone(spec, tier, seed)
     if spec['kind'] == 'real':
         from hv import realwork
         return realwork.run_shard('C04', spec, tier, seed)
